@@ -48,7 +48,8 @@ impl InputVariant {
         starter.data.fields = match v.fields {
             syn::Fields::Unit => vec![],
             syn::Fields::Unnamed(ref fields) => {
-                if fields.unnamed.len() != 1 {
+                // A skipped variant is never parsed, so its shape does not matter.
+                if fields.unnamed.len() != 1 && !starter.skip.unwrap_or_default() {
                     return Err(Error::custom(
                         "Tuple variants must have exactly one field",
                     )
